@@ -537,11 +537,77 @@ func c20Concurrent(run *ev.Run, id uint64, model porcupine.Model) {
 
 var c20RaceRe = regexp.MustCompile(`(?s)WARNING: DATA RACE.*?={18}`)
 
+// ---- layer 2b: interrupt storm ----
+// The linearizability histories are short (porcupine's cost) and overlap an interrupt with the END of an
+// evaluation only a few thousand times per run; a window of a few instructions between two critical sections of
+// the trigger goroutine (length read under one lock, element used under the next: seed C20-D) needs millions.
+// The storm runs push/finish pairs (depth 1..3) as fast as the evaluator goroutine can while an interrupter
+// fires through the handshaked trigger without pause. Oracle: no panic on any goroutine (a panic on the
+// stack's own trigger goroutine kills the child: reported by the parent as child-died with the crash log),
+// every context finished by its closure is cancelled, every interrupt delivered was taken.
+func c20Storm(run *ev.Run) {
+	nIter := run.Pick(400000, 6000000)
+	for round := 0; round < 4; round++ {
+		real := c20NewReal()
+		var stopI atomic.Bool
+		var delivered, cancelledLive int64
+		var wg sync.WaitGroup
+		wg.Add(1)
+		go func() {
+			defer wg.Done()
+			for !stopI.Load() {
+				real.interrupt()
+				delivered++
+			}
+		}()
+		depthMax := 1 + round%3
+		bad := int64(0)
+		for i := 0; i < nIter/4; i++ {
+			var ctxs [3]context.Context
+			var fins [3]func()
+			d := 1 + i%depthMax
+			for k := 0; k < d; k++ {
+				ctxs[k], fins[k] = real.s.Push(context.Background())
+			}
+			if ctxs[d-1].Err() != nil {
+				cancelledLive++
+			}
+			if round == 3 && i%2 == 0 {
+				fins[0]() // outer finish pops the nested ones too
+				for k := 0; k < d; k++ {
+					if ctxs[k].Err() == nil {
+						bad++
+					}
+				}
+				continue
+			}
+			for k := d - 1; k >= 0; k-- {
+				fins[k]()
+				if ctxs[k].Err() == nil {
+					bad++
+				}
+			}
+		}
+		stopI.Store(true)
+		wg.Wait()
+		real.stop()
+		run.Eval(int64(nIter / 4))
+		run.Count("storm:push-finish-groups", int64(nIter/4))
+		run.Count("storm:interrupts-delivered", delivered)
+		run.Count("storm:interrupts-that-hit-a-live-context-before-its-finish", cancelledLive)
+		if bad > 0 {
+			run.Violation("storm:finished-context-not-cancelled", fmt.Sprintf("%d contexts were still alive after their finish closure returned (round %d)", bad, round), nil)
+		}
+	}
+}
+
 func c20Main(args []string) {
 	run := ev.NewRun("C20")
 	run.Rule = "layer 1: every sequence over {push, finish(any closure ever created, also stale ones), interrupt, stop} up to length 7/pushes 4 (quick) or 8/5 (thorough) executed on the real ctxstack with a handshaked trigger, all contexts compared with the stack model after every op; layer 2: randomized concurrent histories (evaluator/interrupter/observer goroutines) recorded at the client boundary and checked for linearizability against the same model with porcupine, under the race detector; layer 3: interp.Main with nested REPLs and interrupts delivered at event-driven boundary moments. non-trivial = sequence with >=2 pushes / concurrent history; distinct = op sequence / plan"
 	run.Assumptions = []string{"a closure implicitly finished by an outer finish is not invoked later (fq: iterators are owned by their parent evaluation); repeated calls of an explicitly finished closure are included", "binary built with -race; race reports are read from GORACE log_path by the parent process and are violations"}
 	if os.Getenv("VERIF_C20_CHILD") == "" {
+		run.Require("storm:interrupts-delivered", 1000)
+		run.Require("interp:failed-nested-eval-scenarios", 5)
 		c20Parent(run)
 		return
 	}
@@ -568,6 +634,7 @@ func c20Main(args []string) {
 	}
 	close(ch)
 	wg.Wait()
+	c20Storm(run)
 	c20Interp(run)
 	if err := run.WritePart(os.Getenv("VERIF_PART")); err != nil {
 		fmt.Fprintln(os.Stderr, err)
